@@ -15,7 +15,7 @@ func verifProfileBytes(d int) []byte {
 	h := verifBytes(128)
 	verifAssume(verifBE32(h, 36) == 0x61637370)
 	in := append([]byte{}, h...)
-	in = append(in, 0, 0, 0, 1, 'd', 'e', 's', 'c', 0, 0, 0, 144, 0, 0, 0, byte(d))
+	in = append(in, 0, 0, 0, 1, 'd', 'e', 's', 'c', 0, 0, 0, 144, byte(d>>24), byte(d>>16), byte(d>>8), byte(d))
 	in = append(in, verifBytes(d)...)
 	return in
 }
@@ -23,10 +23,11 @@ func verifProfileBytes(d int) []byte {
 // VerifHarness_C08_ICC: the profile reader behind a buffered reader over a source that
 // delivers in short reads must produce the same profile as reading from memory.
 func VerifHarness_C08_ICC() {
-	in := verifProfileBytes(verifC08Desc)
+	// 6 bytes of tag data, or 9000 (more than two bufio buffers, so that reads bypass the buffer)
+	in := verifProfileBytes([]int{verifC08Desc, 9000}[verifChoice(2)])
 	p1, err1 := NewProfileReader(bytes.NewReader(in)).ReadProfile()
 	src := rd.New(in)
-	src.Chunk = []int{1, 2, 3, 7, 100}[verifChoice(5)]
+	src.Chunk = []int{1, 2, 3, 7, 100, 0, 8192}[verifChoice(7)]
 	src.EOFWithData = verifChoice(2) == 1
 	p2, err2 := NewProfileReader(bufio.NewReader(src)).ReadProfile()
 	verifReach("both-read")
